@@ -43,6 +43,9 @@ type vfC16Conn struct {
 	Clears []int  `json:"clears,omitempty"`
 	Pause  []int  `json:"pause,omitempty"` // frame indices before which the sender pauses at the barrier
 	Bad    []int  `json:"bad,omitempty"`   // frame indices before which a bad frame (zero interior pixel) is sent
+	// ClearAfterBad: every bad frame is followed by a 'clear' marker (the camera daemon restarts the camera
+	// after a bad frame and announces it), then the sender pauses before the next good frame
+	ClearAfterBad bool `json:"clear_after_bad,omitempty"`
 }
 
 type vfC16Case struct {
@@ -97,6 +100,10 @@ func vfGenC16(t *rapid.T) vfC16Case {
 		if rapid.IntRange(0, 3).Draw(t, "hasbad") == 0 {
 			// bad frames, in particular as the very first frame of a connection
 			cn.Bad = append(cn.Bad, rapid.SampledFrom([]int{0, 0, 1, n / 2}).Draw(t, "badat"))
+			if rapid.IntRange(0, 2).Draw(t, "bad_more") == 0 {
+				cn.Bad = append(cn.Bad, rapid.IntRange(0, n-1).Draw(t, "badat2"))
+			}
+			cn.ClearAfterBad = rapid.IntRange(0, 2).Draw(t, "clear_after_bad") > 0
 		}
 		for j := rapid.IntRange(0, 3).Draw(t, "npause"); j > 0; j-- {
 			cn.Pause = append(cn.Pause, rapid.IntRange(0, n-1).Draw(t, "pauseat"))
@@ -371,6 +378,13 @@ func vfC16Run(c vfC16Case, withReq bool) *vfC16Obs {
 					o.msg = fmt.Sprintf("connection %d: %v", ci, err)
 					break
 				}
+				if cn.ClearAfterBad {
+					if err := conn.Write([]byte("clear")); err != nil {
+						o.msg = fmt.Sprintf("connection %d: %v", ci, err)
+						break
+					}
+					pause[fi] = true
+				}
 			}
 			v := values[ci][fi]
 			pix := make([]uint16, cam.W*cam.H)
@@ -530,6 +544,6 @@ func vfRunC16(c vfC16Case) *kit.Result {
 
 func TestVF_C16(t *testing.T) {
 	kit.Drive(t, "C16", "TestVF_C16",
-		"generated schedules: 1-4 requester goroutines looping over scripts of {TakeSnapshot(-1 / last id), TakeTestRecording, CameraInfo, spin, yield, sleep} while 1-3 camera connections (reconnects, 'clear' markers, bad frames - also as the first frame of a connection -, sender pauses at the lock-step barrier) feed uniform-valued frames of increasing value, GOMAXPROCS in {1,2,4,16}, ring capacity 1 and up; built with the race detector. Oracle: every returned snapshot is uniform (a whole frame), stays unchanged while later frames arrive (an exact copy, re-checked after the ring has wrapped), and is at least as new as the newest frame known to be completely processed when the request started; CameraInfo returns a description some camera sent; the pipeline neither stalls nor dies; continuous files equal the request-free twin and every motion file of the twin is present unchanged (extra files are 21-frame test recordings); zero race reports. Non-trivial: a snapshot was returned for a request that overlapped the processing of a frame (measured with atomics around the barrier).",
+		"generated schedules: 1-4 requester goroutines looping over scripts of {TakeSnapshot(-1 / last id), TakeTestRecording, CameraInfo, spin, yield, sleep} while 1-3 camera connections (reconnects, 'clear' markers, bad frames - also as the first frame of a connection, also followed by a 'clear' -, sender pauses at the lock-step barrier) feed uniform-valued frames of increasing value, GOMAXPROCS in {1,2,4,16}, ring capacity 1 and up; built with the race detector. Oracle: every returned snapshot is uniform (a whole frame), stays unchanged while later frames arrive (an exact copy, re-checked after the ring has wrapped), and is at least as new as the newest frame known to be completely processed when the request started; CameraInfo returns a description some camera sent; the pipeline neither stalls nor dies; continuous files equal the request-free twin and every motion file of the twin is present unchanged (extra files are 21-frame test recordings); zero race reports. Non-trivial: a snapshot was returned for a request that overlapped the processing of a frame (measured with atomics around the barrier).",
 		vfGenC16, vfRunC16)
 }
